@@ -48,7 +48,8 @@ def run_case(case, ctx):
     convergent = case.get('family') == 'convergent'
     for attempt in range(100):
         base, feats, risk = c04.make_spec({'cseed': rnd.randrange(1 << 30), 'want': 'vec_single_target_multi_source' if convergent else None,
-                                           'family': 'edge_templates' if case.get('family') == 'edge_templates' else 'main'},
+                                           'family': 'edge_templates' if case.get('family') == 'edge_templates' else 'main',
+                                           'edge_shapes': ['two_in', 'two_in', 'lin', 'tanh']},
                                           ctx['excluded'])
         ref0 = RefModel(base)
         if max(n.count('/') for n in ref0.node_order) <= 1 and ref0.state_keys:
